@@ -90,7 +90,12 @@ def main():
     except Exception as e:
         tb = traceback.format_exc()
         print(tb, file=sys.stderr)
-        broken.append({'kind': 'harness', 'what': 'correspondence harness raised', 'detail': tb[-2500:]})
+        # an exception raised INSIDE the code under test, on an input the harness generated, is a behavioural change of the
+        # implementation (the harness does not raise on the unchanged tree); anything else is an infrastructure error
+        in_repo = ('File "%s' % vlib.REPO) in tb
+        broken.append({'kind': 'implementation-raised' if in_repo else 'harness',
+                       'what': 'the implementation raised inside the correspondence run' if in_repo else 'correspondence harness raised',
+                       'detail': tb[-2500:]})
     if res.disagreements:
         broken.append({'kind': 'correspondence', 'what': '%d model/implementation disagreement(s)' % len(res.disagreements),
                        'detail': res.disagreements[:3]})
